@@ -104,6 +104,22 @@ FindSpec(C, r, l) == FindFrom(C, r, l, 1)
 DecryptSpec(K, R, sameAccount) == sameAccount /\ (K \cap R \cap Shielded) # {}
 
 \* -------------------------------------------------------------------------------------------
+\* combining requests (`ReceiverRequirement::intersect`, `ReceiverRequirements::intersect`): the
+\* stronger requirement wins; Require and Omit are incompatible; the result must still allow a
+\* shielded receiver.
+
+MeetLevel(a, b) == IF {a, b} = {"Require", "Omit"} THEN "Conflict"
+                   ELSE IF "Require" \in {a, b} THEN "Require"
+                   ELSE IF "Omit" \in {a, b} THEN "Omit"
+                   ELSE "Allow"
+IntersectSpec(r1, r2) ==
+    LET o == MeetLevel(r1.o, r2.o)  s == MeetLevel(r1.s, r2.s)  t == MeetLevel(r1.t, r2.t)
+    IN  IF "Conflict" \in {o, s, t} THEN [k |-> "conflict", o |-> "-", s |-> "-", t |-> "-"]
+        ELSE IF o = "Omit" /\ s = "Omit" THEN [k |-> "noshielded", o |-> "-", s |-> "-", t |-> "-"]
+        ELSE [k |-> "ok", o |-> o, s |-> s, t |-> t]
+CustomRequests == {r \in Requests : r.kind = "custom" /\ Constructible(r)}
+
+\* -------------------------------------------------------------------------------------------
 \* string codecs: which (encoding network, decoding network) pairs read back
 
 RealNets == {"main", "test", "regtest"}
